@@ -110,7 +110,9 @@ def user_fn(*a, **k):  # module-level so that fully_qualified_name is stable
 def process_unit(ctx):
     graph, util, errors, _graph = _real()
     tr = Trace()
-    RETRY = object()
+    def RETRY(f):      # a decorator (callable), identified by identity
+        return f
+
     calls = []
     k = ctx.choose(2, "node-kind")
     if k == 1:
